@@ -94,8 +94,8 @@ let handle (fixed : bool) (fuel : int) (line : string) : string =
   | _ -> failwith "bad session line"
 
 let () =
-  let fixed = ref false and fuel = ref fuel_default in
-  Array.iteri (fun i a -> if a = "--fixed" then fixed := true
+  let fixed = ref true and fuel = ref fuel_default in   (* --pinned: the single-step path before the fix *)
+  Array.iteri (fun i a -> if a = "--fixed" then fixed := true else if a = "--pinned" then fixed := false
                 else if a = "--fuel" && i + 1 < Array.length Sys.argv then fuel := int_of_string Sys.argv.(i + 1)) Sys.argv;
   try
     while true do
